@@ -84,5 +84,6 @@ Created create_lit(int litslot, const Spec&);
 const char* slot_file0(); const char* slot_file1(); const char* slot_file2(); const char* slot_file3();
 const char* slot_file4(); const char* slot_file5(); const char* slot_file6(); const char* slot_file7();
 const char* lit_file();
+const char* scoped_file();
 
 }  // namespace w
